@@ -106,6 +106,75 @@ func (d *VerifC37Dep) UnmarshalBinary(b []byte) error {
 
 var _ extension.Dependency = (*VerifC37Dep)(nil)
 
+// handle-style dependencies: their identity is their type, their serialized form is nil, empty, one byte
+// or large. The wire entry (type name + id) is what lets the receiving node rebuild them.
+type VerifC37Nil struct{}
+
+func (*VerifC37Nil) ID() string                     { return "n1" }
+func (*VerifC37Nil) MarshalBinary() ([]byte, error) { return nil, nil }
+func (*VerifC37Nil) UnmarshalBinary([]byte) error   { return nil }
+
+type VerifC37Empty struct{}
+
+func (*VerifC37Empty) ID() string                     { return "e1" }
+func (*VerifC37Empty) MarshalBinary() ([]byte, error) { return []byte{}, nil }
+func (*VerifC37Empty) UnmarshalBinary([]byte) error   { return nil }
+
+type VerifC37One struct{ b byte }
+
+func (*VerifC37One) ID() string                       { return "o1" }
+func (d *VerifC37One) MarshalBinary() ([]byte, error) { return []byte{d.b}, nil }
+func (d *VerifC37One) UnmarshalBinary(p []byte) error {
+	if len(p) != 1 {
+		return fmt.Errorf("one-byte dependency got %d bytes", len(p))
+	}
+	d.b = p[0]
+	return nil
+}
+
+type VerifC37Large struct{ n int }
+
+func (*VerifC37Large) ID() string { return "l1" }
+func (d *VerifC37Large) MarshalBinary() ([]byte, error) {
+	out := make([]byte, d.n)
+	for i := range out {
+		out[i] = byte(i*7 + 3)
+	}
+	return out, nil
+}
+func (d *VerifC37Large) UnmarshalBinary(p []byte) error { d.n = len(p); return nil }
+
+func c37Dep(id, payload string) extension.Dependency {
+	switch id {
+	case "n1":
+		return &VerifC37Nil{}
+	case "e1":
+		return &VerifC37Empty{}
+	case "o1":
+		b := byte('x')
+		if payload != "" {
+			b = payload[0]
+		}
+		return &VerifC37One{b: b}
+	case "l1":
+		n, _ := strconv.Atoi(payload)
+		return &VerifC37Large{n: n}
+	}
+	return &VerifC37Dep{id: id, Payload: payload}
+}
+
+func c37DepBytes(d extension.Dependency) string {
+	b, _ := d.MarshalBinary()
+	if _, ok := d.(*VerifC37Dep); ok {
+		return hex.EncodeToString(b)
+	}
+	sum := 0
+	for _, x := range b {
+		sum = (sum*31 + int(x)) % 1000003
+	}
+	return fmt.Sprintf("len=%d;sum=%d", len(b), sum)
+}
+
 // ---- the actor
 type VerifC37Actor struct{}
 
@@ -269,8 +338,7 @@ func c37ProbePID(n int, path string, pid *PID) c37Probe {
 		p.Role = *r
 	}
 	for _, d := range pid.Dependencies() {
-		b, _ := d.MarshalBinary()
-		p.Deps = append(p.Deps, [3]string{d.ID(), fmt.Sprintf("%T", d), hex.EncodeToString(b)})
+		p.Deps = append(p.Deps, [3]string{d.ID(), fmt.Sprintf("%T", d), c37DepBytes(d)})
 	}
 	sort.Slice(p.Deps, func(i, j int) bool { return p.Deps[i][0] < p.Deps[j][0] })
 	if o := pid.initTimeout.Load(); o != nil {
@@ -300,7 +368,7 @@ func c37Options(c c37Case) []SpawnOption {
 	if len(c.Deps) > 0 {
 		var ds []extension.Dependency
 		for _, d := range c.Deps {
-			ds = append(ds, &VerifC37Dep{id: d[0], Payload: d[1]})
+			ds = append(ds, c37Dep(d[0], d[1]))
 		}
 		opts = append(opts, WithDependencies(ds...))
 	}
@@ -361,7 +429,7 @@ func TestVerifC37Wire(t *testing.T) {
 	if err := sys.Register(ctx, &VerifC37Actor{}); err != nil {
 		t.Fatal(err)
 	}
-	if err := sys.Inject(&VerifC37Dep{}); err != nil {
+	if err := sys.Inject(&VerifC37Dep{}, &VerifC37Nil{}, &VerifC37Empty{}, &VerifC37One{}, &VerifC37Large{}); err != nil {
 		t.Fatal(err)
 	}
 
